@@ -41,10 +41,11 @@ def own_paths(ck, f, var, start_ev, store_field, rule, what):
         if not done:
             bad = path
             break
+    wit = [e for e in f.events() if e.kind == "assign" and strip(e.lhs)["k"] == "member" and strip(e.lhs)["field"] == store_field and S(e.rhs) == var]
     ck.ob(rule, f.site(what), bad is None and n > 0,
           "%d path(s): the duplicated key is stored into an entry or released" % n if bad is None else
           "on this path the duplicated key is neither stored into an entry nor released (leak)",
-          path=rules.fmt_path(f, bad) if bad else None)
+          path=rules.fmt_path(f, bad) if bad else None, witness=[("del_event", f.unit, f.name, e.block.id, e.idx) for e in wit])
 
 
 def run(ck, P):
@@ -116,7 +117,8 @@ def run(ck, P):
             break
     ck.ob("C05.2-DTOR-BEFORE-DROP", hp.site("update"), bad is None and n > 0,
           "%d update path(s): old value destroyed before being replaced" % n if bad is None else bad[0],
-          path=rules.fmt_path(hp, bad[1]) if bad else None)
+          path=rules.fmt_path(hp, bad[1]) if bad else None,
+          witness=[("del_event", hp.unit, hp.name, e.block.id, e.idx) for e in rules.dtor_calls(hp, {"_map"})])
     # clear_elem
     bad = None
     n = 0
@@ -139,7 +141,8 @@ def run(ck, P):
             break
     ck.ob("C05.2-DTOR-BEFORE-DROP", ce.site("clear"), bad is None and n > 0,
           "%d path(s): value destroyed once, key released iff owned" % n if bad is None else bad[0],
-          path=rules.fmt_path(ce, bad[1]) if bad else None)
+          path=rules.fmt_path(ce, bad[1]) if bad else None,
+          witness=[("del_event", ce.unit, ce.name, e.block.id, e.idx) for e in rules.dtor_calls(ce, {"_map"})])
     dtor_discipline(ck, P, X, "C05.2-DTOR-BEFORE-DROP", M, "_map", {"hashmap_put", "clear_elem"},
                     ["m_map_get", "m_map_contains", "m_map_len", "m_map_itr_get_data", "m_map_itr_get_key", "hashmap_rehash"],
                     ["m_map_remove", "m_map_itr_remove", "m_map_clear", "m_map_free"])
@@ -179,7 +182,8 @@ def run(ck, P):
             bad = ("key stored into a slot that is not known to be empty", path)
             break
     ck.ob("C05.3-LENGTH", hp.site("key<->length++"), bad is None, "%d path(s) agree" % n if bad is None else bad[0],
-          path=rules.fmt_path(hp, bad[1]) if bad else None)
+          path=rules.fmt_path(hp, bad[1]) if bad else None,
+          witness=[("del_event", hp.unit, hp.name, e.block.id, e.idx) for e in hp.events() if e.kind == "incdec" and S(e.lhs) == "m->length"])
     bad = None
     for path in ce.paths():
         evs = list(rules.path_events(ce, path))
@@ -189,7 +193,8 @@ def run(ck, P):
             bad = ("clear_elem does length-- %d time(s), clears the key %d time(s)" % (len(dec), len(kz)), path)
             break
     ck.ob("C05.3-LENGTH", ce.site("clear<->length--"), bad is None, "each call clears one key and decrements once" if bad is None else bad[0],
-          path=rules.fmt_path(ce, bad[1]) if bad else None)
+          path=rules.fmt_path(ce, bad[1]) if bad else None,
+          witness=[("del_event", ce.unit, ce.name, e.block.id, e.idx) for e in ce.events() if e.kind == "incdec" and S(e.lhs) == "m->length"])
     wr = list(P.writes_to_field("_map", "length"))
     ck.ob("C05.3-LENGTH", "Lib/structs/map.c:_map.length writers", {w.fn.name for w in wr} <= {"hashmap_put", "clear_elem"},
           "writers: %s" % sorted({w.fn.name for w in wr}), nontrivial=False)
